@@ -12,10 +12,13 @@ func isFixed(t *dyn.TypeOps) bool { return t.Kind != dyn.KFloat }
 func fixedToFixed(cv *dyn.ConvOp) bool { return isFixed(cv.S) && isFixed(cv.D) }
 
 func fixedPlan(tier string) []Batch {
+	bs := split("scan", 8, 900)
 	if tier == "thorough" {
-		return split("scan", 16, 3600)
+		bs = split("scan", 16, 3600)
 	}
-	return split("scan", 8, 900)
+	// plus: fixed inputs through the property's instantiations in three fresh
+	// processes that visit them in different orders (no dependence on history)
+	return append(bs, digestBatches()...)
 }
 
 func init() {
@@ -53,6 +56,10 @@ func inverseConv(cv *dyn.ConvOp) *dyn.ConvOp {
 }
 
 func runFixed(c *core.Ctx, accuracy bool) {
+	if isDigestMode(c.Mode) {
+		convDigests(c, fixedToFixed)
+		return
+	}
 	tasks := fixedTasks(fixedToFixed, !c.Quick(), 16)
 	wholeDone := map[string]bool{}
 	for ti, t := range tasks {
